@@ -36,7 +36,11 @@ def run_real(ops):
                 outs.append("KeyError")
         elif op["o"] == "update":
             inputs = {"updates": [tuple(x) for x in op["ins"]]} if op.get("with_port", True) else {}
+            given = list(inputs.get("updates", []))
             upd = box.update(SimTime(0), inputs)
+            if list(inputs.get("updates", [])) != given:
+                # the list on the input port is the upstream component's output object (values travel by reference)
+                box._verif_mutated = (len(outs), given, list(inputs.get("updates", [])))
             o = [list(x) for x in upd.outputs.get("updates", [])]
             outs.append(o)
             held.append((len(outs) - 1, upd.outputs, o))
@@ -77,6 +81,10 @@ def monitor(ops, outs, boxes):
     for i, snap, now in getattr(box, "_verif_rewritten", []):
         vs.append(V("output-rewritten-later", f"the output of update (op #{i}) read {snap} when it was returned and reads {now} "
                     "after later updates: an earlier output is an alias of later ones", site="IoBoxDevice.update"))
+    if getattr(box, "_verif_mutated", None):
+        i, was, now = box._verif_mutated
+        vs.append(V("input-mutated", f"update (op #{i}) changed the list it was given on its input port from {was} to {now}: that list is the "
+                    "upstream component's output, shared with every other consumer", site="IoBoxDevice.update"))
     late = getattr(box, "_verif_late", None)
     for a in {0, 1, 2, 3}:
         def rd(b):
